@@ -2,7 +2,11 @@
 
 use crate::CoalesceConfig;
 use hashbrown::HashMap;
+#[cfg(not(feature = "verif-hooks"))]
 use parking_lot::Mutex;
+// verification hook: lock acquisitions become scheduling points of an external harness
+#[cfg(feature = "verif-hooks")]
+use tower_resilience_core::verif::sync::Mutex;
 use std::future::Future;
 use std::hash::Hash;
 use std::marker::PhantomData;
